@@ -4,6 +4,7 @@ package scen
 
 import (
 	"bytes"
+	"crypto/md5"
 	"encoding/binary"
 	"encoding/hex"
 	"fmt"
@@ -343,6 +344,63 @@ func c17ClientInputs(rng *rand.Rand, maxv string, n int, maxFrame int) []hostile
 		rng.Read(body2)
 		add("snappy/random-block", append(hdr9(4, 1, 7, 7, int32(len(body2))), body2...), "startup-snappy")
 	}
+	// 5a. LZ4 blocks whose last match ends before / at / up to 8 bytes past the announced decompressed length, with and
+	// without length-extension bytes, the match overlapping itself or not
+	for lits := 1; lits <= 6; lits++ {
+		for _, mlen := range []int{4, 5, 7, 18, 19, 20, 274} {
+			for _, over := range []int{-2, -1, 0, 1, 2, 3, 4, 5, 8} {
+				announced := lits + mlen - over
+				if announced < 1 {
+					continue
+				}
+				off := 1 + (lits+mlen+over+8)%lits
+				var blk []byte
+				ml := mlen - 4
+				tok := byte(lits << 4)
+				if ml >= 15 {
+					tok |= 15
+				} else {
+					tok |= byte(ml)
+				}
+				blk = append(blk, tok)
+				blk = append(blk, plainBody[:lits]...)
+				blk = append(blk, byte(off), 0)
+				if ml >= 15 {
+					rest := ml - 15
+					for rest >= 255 {
+						blk = append(blk, 255)
+						rest -= 255
+					}
+					blk = append(blk, byte(rest))
+				}
+				body := lzBody(uint32(announced), blk)
+				add(fmt.Sprintf("lz4/last-match-ends-%+d-from-announced-length/lits=%d/match=%d", over, lits, mlen), append(hdr9(4, 1, 7, 7, int32(len(body))), body...), "startup-lz4")
+			}
+		}
+	}
+	// 5c. what a connection does first: every ordered pair of (QUERY | PREPARE | PREPARE+EXECUTE) x statement on a fresh
+	// connection (statements the proxy answers itself are prepared under md5(text))
+	{
+		stmts := []string{"USE ks1", "USE system", `USE "ks1"`, "SELECT * FROM system.local", "SELECT * FROM system.peers", "SELECT * FROM system.peers_v2",
+			"SELECT count(*) FROM system.peers", "SELECT key, rpc_address AS a FROM system.local", "SELECT * FROM ks1.t WHERE k = 'x'", "INSERT INTO ks1.t (k, v) VALUES ('x', now())", "SELECT * FROM system.nope", "garbage ("}
+		type sop struct {
+			name string
+			b    []byte
+		}
+		var ops []sop
+		for si, st := range stmts {
+			qf := encPlain(frame.NewFrame(v4, int16(10+si), &message.Query{Query: st, Options: &message.QueryOptions{Consistency: primitive.ConsistencyLevelOne}}))
+			pf := encPlain(frame.NewFrame(v4, int16(40+si), &message.Prepare{Query: st}))
+			id := md5.Sum([]byte(st))
+			ef := encPlain(frame.NewFrame(v4, int16(70+si), &message.Execute{QueryId: id[:], Options: &message.QueryOptions{Consistency: primitive.ConsistencyLevelOne}}))
+			ops = append(ops, sop{"query:" + st, qf}, sop{"prepare:" + st, pf}, sop{"prepare+execute:" + st, append(append([]byte{}, pf...), ef...)}, sop{"execute-unprepared:" + st, ef})
+		}
+		for _, a := range ops {
+			for _, b := range ops {
+				out = append(out, hostile{Kind: "first-on-connection/" + a.name + " then " + b.name, Bytes: a.b, Then: b.b, Pre: "startup"})
+			}
+		}
+	}
 	add("snappy/huge-declared-length", append(hdr9(4, 1, 7, 7, 6), 0xff, 0xff, 0xff, 0xff, 0x0f, 0x00), "startup-snappy")
 	// 5b. tiny frames whose inner length fields claim gigabytes
 	claim := func(kind string, op byte, body []byte, flags byte) {
@@ -433,6 +491,11 @@ func (p *c17Proc) sendHostile(h hostile) {
 				break
 			}
 		}
+	}
+	if h.Then != nil {
+		_ = nc.SetReadDeadline(time.Now().Add(20 * time.Millisecond))
+		_, _ = nc.Read(make([]byte, 4096))
+		_, _ = nc.Write(h.Then)
 	}
 	if h.Keep {
 		go func() { time.Sleep(3 * time.Second); _ = nc.Close() }()
@@ -743,7 +806,7 @@ func runC17(c *Ctx) {
 		job++
 		if c.Mine(job) {
 			rng := c.Rng(mi)
-			inputs := c17ClientInputs(rng, maxv, c.Pick(3000, 80000), maxFrame)
+			inputs := c17ClientInputs(rng, maxv, c.Pick(6000, 80000), maxFrame)
 			p, err := c17Start(c, maxv, "client")
 			if err != nil {
 				r.Inconc("c17: " + err.Error())
